@@ -601,6 +601,10 @@ class IteratorQueue(IterableQueue[_ValueT]):
 
   def get_nowait(self) -> _ValueT:
     """Gets an element from the queue, raises Empty immediately if empty."""
+    # Detecting the end of the stream notifies the dequeue condition: it has to
+    # be held also when this is called directly, not only from get(). Same
+    # lock order as get() and get_batch(): dequeue, then states.
+    self._dequeue_lock.acquire()
     self._states_lock.acquire()
     try:
       result = self._queue.get_nowait()
@@ -624,6 +628,7 @@ class IteratorQueue(IterableQueue[_ValueT]):
       raise e
     finally:
       self._states_lock.release()
+      self._dequeue_lock.release()
 
   def get_batch(
       self, max_batch_size: int = 0, *, block: bool = False
